@@ -41,6 +41,7 @@ import (
 )
 
 const c17SigTornTail = "torn-tail-refuses-restart"
+const c17SigRotGap = "interrupted-rotation-refuses-restart"
 
 const (
 	c17Magic     = uint32(0x3c17e0b5)
@@ -899,6 +900,7 @@ type c17Stats struct {
 	rejected, cancelled            int
 	ioFaults, ioFaultsInFlight     int
 	knownTornTail, tornByParent    int
+	knownRotGap                    int
 }
 
 func c17Prop(t vpT, c c17Case, dir string, st *c17Stats) (nontrivial bool, classes []string) {
@@ -1060,6 +1062,20 @@ func c17Prop(t vpT, c c17Case, dir string, st *c17Stats) (nontrivial bool, class
 			// state as a kill between those two writes). Only the fault injector reaches it here; not asserted, the
 			// case ends. Kill points stay fully asserted.
 			return nontrivial, append(classes, "io-fault-mid-rotation(not-asserted)")
+		}
+		if err != nil && run.killed && strings.Contains(err.Error(), "has no ROTATE_TO but a newer file exists") && vpKnownListed("C17", c17SigRotGap) {
+			// The kill landed between the two halves of a rotation (binlogWriter.rotate creates the next chunk and syncs its
+			// ROTATE_FROM before it writes ROTATE_TO into the old chunk). Ask the real engine: reopen the directory as the
+			// next incarnation would. If it refuses, that is the listed, unrepaired finding; the case ends here.
+			probe := c17Spawn(t, dir, c.Chunk, c17Seg{CommitEveryMs: 2, Kill: c17Kill{At: "none"}}, len(c.Segs)+i)
+			st.children++
+			for _, l := range probe.lines {
+				if l.T == "openerr" {
+					st.knownRotGap++
+					return nontrivial, append(classes, "restart-refused-after-interrupted-rotation")
+				}
+			}
+			t.Fatalf("VP-INCONCLUSIVE segment %d (%s): the harness cannot parse the binlog directory left by a kill inside a rotation (%v) but the engine reopened it%s", i, c17KillName(c, i), err, diag())
 		}
 		if err != nil {
 			t.Fatalf("segment %d (%s): binlog files unreadable for the harness: %v%s", i, c17KillName(c, i), err, diag())
@@ -1359,6 +1375,10 @@ func c17Known(ev *vpEvidence, st, total *c17Stats) {
 	if st.knownTornTail > 0 {
 		total.knownTornTail += st.knownTornTail
 		ev.Known(c17SigTornTail, "a write torn by the kill leaves the newest binlog file ending inside an event; OpenEngine then fails: current position in file is not equal file size")
+	}
+	if st.knownRotGap > 0 {
+		total.knownRotGap += st.knownRotGap
+		ev.Known(c17SigRotGap, "a kill between the creation of the next binlog chunk (ROTATE_FROM synced) and the write of ROTATE_TO into the old chunk leaves a directory on which OpenEngine fails")
 	}
 }
 
